@@ -746,6 +746,12 @@ def check_unpack_siblings(ctx, repo):
     required by the unpack strategy (C06 c, d), sized reads are exact (C06 b), and the bit
     groups the character classes assume are laid out MSB-first / big-endian (C07 e)"""
     from . import c06, c07
+    # Round 5: a fixed Int is rendered by the field's own pack (the struct object / to_bytes that
+    # Int._compile installs): width, byte order and signedness of that codec (C05 a, b)
+    from . import c05
+    ici = repo.cls('Int')
+    if ici.methods.get('_compile') is not None:
+        c05.check_compile(ctx, ici, ici.methods['_compile'])
     ci = repo.cls('Data')
     sel = c06.check_selection(ctx)
     seen = set()
